@@ -307,34 +307,55 @@ def scan (s : Str) : Option (List (String × Str) × Str) := activeRules.map fun
 
 /-! ## `utils.default_is_dynamic` -/
 
-/-- the loop over tokens (utils.py 233-249): `hyphenType` = the element type is one of the types
-    likely to hold a literal hyphen; `dynNames` = the rule names that make a default dynamic -/
-def dynLoop (dynNames : List String) (hyphenType : Bool) : List (String × Str) → Bool
+/-- the data type the hyphen rule looks at (utils.py, 5a69025): the `bind.type` of the type-table entry when the
+    element type is a (non-empty) key of `QUESTION_TYPE_DICT` — so every spelling of a date / geo type
+    (`datetime`, `q date`, `gps`, …) is treated like its data type — else the element type itself -/
+def dataTypeOf (ty : Str) : Str :=
+  match Pyxv.Gen.questionTypes.find? (fun p => p.1.toList == ty) with
+  | some (_, e) =>
+    if e.isEmpty then ty
+    else match e.find? (fun x => x.1 == "bind" && x.2.1 == "type") with
+      | some x => x.2.2.toList
+      | none => ty
+  | none => ty
+
+/-- the loop over tokens: `hyphenType` = the data type is one of the types likely to hold a literal hyphen;
+    `override` = some token of the WHOLE default is a `${reference}` or a function call (d989f12: then a hyphen
+    no longer makes the default static); `dynNames` = the rule names that make a default dynamic -/
+def dynLoop (dynNames : List String) (hyphenType override : Bool) : List (String × Str) → Bool
   | [] => false
   | (n, v) :: rest =>
-    if hyphenType && n == "OPS_MATH" && v == ['-'] then false
+    if hyphenType && n == "OPS_MATH" && v == ['-'] then override
     else if dynNames.contains n then true
-    else dynLoop dynNames hyphenType rest
+    else dynLoop dynNames hyphenType override rest
 
 def dynamicWith (rules : Rules) (dflt ty : Str) : Bool :=
   if dflt.isEmpty then false
-  else dynLoop Pyxv.Gen.defaultDynamicTokenNames
-    (Pyxv.Gen.defaultHyphenTypes.contains (String.ofList ty)) (scanWith rules dflt).1
+  else
+    let toks := (scanWith rules dflt).1
+    dynLoop Pyxv.Gen.defaultDynamicTokenNames
+      (Pyxv.Gen.defaultHyphenTypes.contains (String.ofList (dataTypeOf ty)))
+      (toks.any fun t => Pyxv.Gen.defaultHyphenOverrideNames.contains t.1) toks
 
-/-- `default_is_dynamic(element_default, element_type)`; `none` = lexer table outside the model -/
+/-- `default_is_dynamic(element_default, element_type)` (`ty` = the question type NAME, as the callers pass
+    `self.type`); `none` = lexer table outside the model -/
 def defaultIsDynamic (dflt ty : Str) : Option Bool := activeRules.map fun rules => dynamicWith rules dflt ty
 
 /-- the string sets of `default_is_dynamic` the property was stated for (pinned by
     `Pyxv.C10.dynamic_sets_pinned`) -/
 def pinnedHyphenTypes : List String := ["date", "dateTime", "geopoint", "geotrace", "geoshape"]
 def pinnedDynNames : List String := ["OPS_MATH", "OPS_UNION", "XPATH_PRED", "PYXFORM_REF", "FUNC_CALL"]
+def pinnedOverrideNames : List String := ["PYXFORM_REF", "FUNC_CALL"]
 
-/-- the classification under the PINNED lexicon and sets: what "static" / "dynamic" mean in the
-    property's oracle; equals `defaultIsDynamic` as long as the pin theorems hold
-    (`Pyxv.C10.classification_is_pinned`) -/
+/-- the classification under the PINNED lexicon and sets (the type table is read as regenerated): what
+    "static" / "dynamic" mean in the property's oracle; equals `defaultIsDynamic` as long as the pin theorems
+    hold (`Pyxv.C10.classification_is_pinned`) -/
 def dynamicPinned (dflt ty : Str) : Bool :=
   if dflt.isEmpty then false
-  else dynLoop pinnedDynNames (pinnedHyphenTypes.contains (String.ofList ty)) (scanWith pinnedRules dflt).1
+  else
+    let toks := (scanWith pinnedRules dflt).1
+    dynLoop pinnedDynNames (pinnedHyphenTypes.contains (String.ofList (dataTypeOf ty)))
+      (toks.any fun t => pinnedOverrideNames.contains t.1) toks
 
 /-! ## `validate_pyxform_reference_syntax` (token loop, pyxform_reference.py 31-60) -/
 
